@@ -362,7 +362,7 @@ class SymArray:
     def std(self, axis=None): return std(self, axis)
     def all(self, axis=None): return all(self, axis)
     def any(self, axis=None): return any(self, axis)
-    def argsort(self, axis=-1, kind=None): return argsort(self)
+    def argsort(self, axis=-1, kind=None): return argsort(self, kind=kind)
     def argmax(self, axis=None): return argmax(self)
     def argmin(self, axis=None): return argmin(self)
     def ptp(self, axis=None): return ptp(self)
@@ -385,15 +385,59 @@ def _fork_bound(x, n):
     return v
 
 
+class SymChoice:
+    """a symbolic pick among concrete (hashable, non-numeric) values, e.g. a survey label selected
+    through a symbolic permutation: pairs of (z3 condition, value), conditions mutually exclusive"""
+    __array_ufunc__ = None
+
+    def __init__(self, pairs):
+        merged = {}
+        order = []
+        for c, v in pairs:
+            if v in merged:
+                merged[v] = core.z3.Or(merged[v], c)
+            else:
+                merged[v] = c
+                order.append(v)
+        self.pairs = [(merged[v], v) for v in order]
+
+    def _eq(self, o):
+        if isinstance(o, SymChoice):
+            return SB(core.z3.Or([core.z3.And(c1, c2) for c1, v1 in self.pairs for c2, v2 in o.pairs if v1 == v2] or [core.z3.BoolVal(False)]))
+        return SB(core.z3.Or([c for c, v in self.pairs if v == o] or [core.z3.BoolVal(False)]))
+
+    def __eq__(self, o):
+        return self._eq(o)
+
+    def __ne__(self, o):
+        return ~self._eq(o)
+
+    __hash__ = None
+
+    def concretize(self):
+        for c, v in self.pairs[:-1]:
+            if core.Ctx.decide(c):
+                return v
+        return self.pairs[-1][1]
+
+    def __repr__(self):
+        return "SymChoice(%s)" % [v for _, v in self.pairs]
+
+
 def _select(i, cells):
     """cells[i] for symbolic integer i as an ite chain (last cell is the default)"""
+    if builtins.any(isinstance(c, SymChoice) or not (is_sym(c) or isinstance(c, (int, float, bool, core.Q, _np.number, _np.bool_))) for c in cells):
+        pairs = []
+        for j, c in enumerate(cells):
+            cond = lift(i == j)
+            if isinstance(c, SymChoice):
+                pairs += [(core.z3.And(cond, cc), v) for cc, v in c.pairs]
+            else:
+                pairs.append((cond, c))
+        return SymChoice(pairs)
     r = cells[-1]
     for j in range(len(cells) - 2, -1, -1):
-        c = cells[j]
-        if isinstance(r, (SB, bool)) and isinstance(c, (SB, bool)):
-            r = ite(i == j, c, r)
-        else:
-            r = ite(i == j, c, r)
+        r = ite(i == j, cells[j], r)
     return r
 
 
@@ -426,6 +470,13 @@ def _pow(a, b):
 
 
 def _cmp(a, b, op):
+    if isinstance(a, SymChoice) or isinstance(b, SymChoice):
+        x, y = (a, b) if isinstance(a, SymChoice) else (b, a)
+        if op == "==":
+            return x._eq(y)
+        if op == "!=":
+            return ~x._eq(y)
+        raise UnsupportedByShim("ordering comparison of symbolic labels")
     if isinstance(a, SB) or isinstance(b, SB):
         ea, eb = lift(a), lift(b)
         if op == "==":
@@ -884,7 +935,7 @@ def dot(a, b):
 # -- order: contracts ---------------------------------------------------------------------
 
 def _concrete_cells(cells):
-    return not builtins.any(is_sym(c) for c in cells)
+    return not builtins.any(is_sym(c) or isinstance(c, SymChoice) for c in cells)
 
 
 def argsort(x, axis=-1, kind=None):
@@ -908,6 +959,9 @@ def argsort(x, axis=-1, kind=None):
     keys = [_select(pi, cells) for pi in p]
     for i in range(n - 1):
         ctx.add_side(lift(_cmp(keys[i], keys[i + 1], "<=")))
+        if kind in ("stable", "mergesort"):
+            # a stable sort keeps equal keys in their original order: THE unique such permutation
+            ctx.add_side(z3.Implies(lift(_cmp(keys[i], keys[i + 1], "==")), p[i].e < p[i + 1].e))
     ctx.notes.setdefault("argsort", []).append((cells, p))
     return SymArray(_np.array(p, dtype=object), _I8)
 
@@ -956,8 +1010,18 @@ def unique(x):
         x = x._symq_value()
     x = x if isinstance(x, SymArray) else SymArray(_obj(x))
     cells = list(x.a.flat)
-    if not _concrete_cells(cells):
-        raise UnsupportedByShim("unique of symbolic cells")
+    # symbolic cells are concretised by forking on their VALUE (np.unique's result depends on it)
+    conc = []
+    for c in cells:
+        if isinstance(c, SymChoice):
+            conc.append(c.concretize())
+        elif isinstance(c, SN):
+            if not c.is_int():
+                raise UnsupportedByShim("unique of symbolic reals")
+            conc.append(core.fork_int(c))
+        else:
+            conc.append(c)
+    cells = conc
     vals = sorted(set(cells))
     return SymArray(_obj(vals), x.dtype)
 
